@@ -476,8 +476,17 @@ def t1_reduce_fusion(ctx: Ctx):
     ctx.check('body = StmtBlock([Assign(elt, None, elt_expr, e.loc), Assign(acc, None, combine, e.loc)])' in txt, REDUCE, fn, q,
               'the element is bound before combining, so short-circuiting skips no element evaluation', 'element is no longer bound first')
     appends = [k for k in calls_in(fn) if call_name(k) == 'ctx.stmts.append']
-    ctx.check(len(appends) == 2 and 'Assign(acc' in norm(appends[0]) and 'ForStmt(target, iterable, body, e.loc)' in norm(appends[1]), REDUCE, fn, q,
-              'seed emitted before the loop', f'emission order: {[norm(a)[:40] for a in appends]}')
+    loop = appends[1].args[0] if len(appends) == 2 and appends[1].args else None
+    ctx.check(len(appends) == 2 and 'Assign(acc' in norm(appends[0]) and isinstance(loop, ast.Call) and call_name(loop) == 'ForStmt' and len(loop.args) >= 3
+              and norm(loop.args[1]) == 'iterable', REDUCE, fn, q, 'seed emitted before the loop; the loop runs over the (once visited) iterable',
+              f'emission order: {[norm(a)[:60] for a in appends]}')
+    # a comprehension target is local to the comprehension, a `for` target is not: the loop must bind names of its own
+    fresh = derived_names(fn, lambda x: isinstance(x, ast.Call) and (call_name(x) or '') in ('self.gensym.refresh', 'self.gensym.fresh'))
+    renamed = derived_names(fn, lambda x: isinstance(x, ast.Call) and (call_name(x) or '') in ('RenameTarget.apply_block', 'RenameTarget.apply')
+                            and len(x.args) >= 2 and bool({n.id for n in ast.walk(x.args[1]) if isinstance(n, ast.Name)} & fresh))
+    tgt_ok = isinstance(loop, ast.Call) and len(loop.args) >= 3 and all(bool({n.id for n in ast.walk(a) if isinstance(n, ast.Name)} & renamed) for a in (loop.args[0], loop.args[2]))
+    ctx.check(tgt_ok, REDUCE, loop or fn, q, 'the loop target and body are renamed to generator names (the iterable is not)',
+              'the `for` rebinds, and leaves bound, an outer variable that has the comprehension target\'s name: `r = any([x > 1 for x in xs]); return x` returns the last element')
     ctx.check("acc = self.gensym.fresh('acc')" in txt and "elt = self.gensym.fresh('b')" in txt, REDUCE, fn, q, 'accumulator and element temporaries are fresh', 'names changed')
     ctx.check('elt_expr = self._visit_expr(comp.elt, None)' in txt, REDUCE, fn, q, 'nothing is hoisted out of the element expression', 'element visited with a preamble')
     ve = ctx.fn(REDUCE, '_ReduceFusionInstance._visit_expr')
@@ -600,6 +609,10 @@ MUTANTS = [
     Mutant('zip-checks-mutation (repair twin)', ZIP, "        plan = _plan(stmt.target, stmt.iterable)\n        if plan is None:\n            return super()._visit_for(stmt, ctx)\n        # Recursively",
            "        plan = _plan(stmt.target, stmt.iterable)\n        if plan is None or _stores_into_lists(stmt.body, IndexedAssign):\n            return super()._visit_for(stmt, ctx)\n        # Recursively", 'C08.G1',
            'consulting a store fact about the body satisfies the rule', expect='silent'),
+    Mutant('fused-loop-keeps-the-comprehension-target', REDUCE, "        ctx.stmts.append(ForStmt(renamed.target, iterable, renamed.body, e.loc))", "        ctx.stmts.append(ForStmt(target, iterable, body, e.loc))", 'C08.T1',
+           'finding F46 before its repair: `r = any([x > 1 for x in xs]); return x` returns the last element of xs'),
+    Mutant('fused-loop-renames-the-iterable-too', REDUCE, "        loop = ForStmt(target, BoolVal(False, e.loc), body, e.loc)", "        loop = ForStmt(target, iterable, body, e.loc)", 'C08.T1',
+           'still emits the un-renamed `iterable`: same program', expect='silent'),
     Mutant('fusion-chain-tail-unmasked', REDUCE, "            self._visit_expr(arg, ctx if i < 2 else None)\n            for i, arg in enumerate(e.args)", "            self._visit_expr(arg, ctx)\n            for i, arg in enumerate(e.args)", 'C08.S1',
            'finding F42 before its repair (ReduceFusion): `a < b < any([xs[i] > 0 for i in range(10)])` raises IndexError after fusion'),
     Mutant('gensym-unseeded', REDUCE, 'self.gensym = Gensym(reserved=def_use.names())', 'self.gensym = Gensym()', 'C08.F3'),
